@@ -243,18 +243,18 @@ for _p in PROPS.values():
 # ---- pinned pure computations (Gen.* regenerated from the Go source on every run; Pin.* = what each one is expected to mean, with
 # the operand names and per-function site counts): charged to the properties whose anchored code they belong to
 PINS = {
-    'C01': ['CacheRead', 'CacheWrite', 'CacheMisc'],
+    'C01': ['CacheRead', 'CacheWrite', 'CacheMisc', 'OptSites', 'NodeSites'],
     'C02': ['MapSites'],
-    'C03': ['CacheRead'],
+    'C03': ['CacheRead', 'NodeSites'],
     'C04': ['Policy', 'DequeSites'],
-    'C05': ['Policy', 'DequeSites'],
+    'C05': ['Policy', 'DequeSites', 'NodeSites'],
     'C06': ['CacheWrite'],
     'C07': ['CacheWrite', 'Policy'],
     'C08': ['CacheLoad', 'FlightSites'],
     'C09': ['CacheLoad', 'FlightSites'],
     'C10': ['CacheLoad', 'FlightSites'],
-    'C11': ['CacheLoad', 'CacheRead'],
-    'C12': ['CacheRead'],
+    'C11': ['CacheLoad', 'CacheRead', 'CalcSites'],
+    'C12': ['CacheRead', 'CalcSites'],
     'C13': ['Wheel'],
     'C14': ['CacheMaint'],
     'C15': ['MapSites'],
